@@ -52,7 +52,7 @@ import time
 import errno
 import struct
 import operator
-from functools import reduce
+from functools import reduce, wraps
 from binascii import hexlify
 
 import logging
@@ -356,6 +356,19 @@ class Chipset(object):
             raise StatusError(data[0])
 
 
+def status_error_is_transmission_error(func):
+    # A chipset command status other than SUCCESS must not leave the
+    # driver as StatusError, see also Device.send_cmd_recv_rsp().
+    @wraps(func)
+    def wrapper(*args, **kwargs):
+        try:
+            return func(*args, **kwargs)
+        except StatusError as error:
+            log.debug(error)
+            raise nfc.clf.TransmissionError(str(error))
+    return wrapper
+
+
 class Device(device.Device):
     # Device driver for the Sony NFC Port-100 chipset.
 
@@ -370,9 +383,11 @@ class Device(device.Device):
         self.chipset.close()
         self.chipset = None
 
+    @status_error_is_transmission_error
     def mute(self):
         self.chipset.switch_rf("off")
 
+    @status_error_is_transmission_error
     def sense_tta(self, target):
         """Sense for a Type A Target is supported for 106, 212 and 424
         kbps. However, there may not be any target that understands the
@@ -465,6 +480,7 @@ class Device(device.Device):
         except CommunicationError as error:
             log.debug(error)
 
+    @status_error_is_transmission_error
     def sense_ttb(self, target):
         """Sense for a Type B Target is supported for 106, 212 and 424
         kbps. However, there may not be any target that understands the
@@ -497,6 +513,7 @@ class Device(device.Device):
             log.debug("rcvd SENSB_RES %s", hexlify(sensb_res).decode())
             return nfc.clf.RemoteTarget(target.brty, sensb_res=sensb_res)
 
+    @status_error_is_transmission_error
     def sense_ttf(self, target):
         """Sense for a Type F Target is supported for 212 and 424 kbps.
 
@@ -535,6 +552,7 @@ class Device(device.Device):
         message = "{device} does not support sense for active DEP Target"
         raise nfc.clf.UnsupportedTargetError(message.format(device=self))
 
+    @status_error_is_transmission_error
     def listen_tta(self, target, timeout):
         """Listen as Type A Target in 106 kbps.
 
@@ -696,6 +714,7 @@ class Device(device.Device):
         message = "{device} does not support listen as Type A Target"
         raise nfc.clf.UnsupportedTargetError(message.format(device=self))
 
+    @status_error_is_transmission_error
     def listen_ttf(self, target, timeout):
         """Listen as Type F Target is supported for either 212 or 424 kbps."""
         if target.brty not in ('212F', '424F'):
@@ -757,6 +776,7 @@ class Device(device.Device):
                     transmit_data = bytearray([len(transmit_data)+1]) \
                         + transmit_data
 
+    @status_error_is_transmission_error
     def listen_dep(self, target, timeout):
         log.debug("listen_dep for {0:.3f} sec".format(timeout))
 
